@@ -136,6 +136,7 @@ type Sink struct {
 	seen              map[string]struct{}
 	maxSamples        int
 	sampleEvery       int
+	kept              map[string]int
 }
 
 func NewSink(dir, stream, corr, rule string, perShard int) *Sink {
@@ -167,7 +168,13 @@ func (s *Sink) Add(c Case) {
 		c.Viol[i].Case = c.Desc
 		c.Viol[i].Shard = s.shard
 		c.Viol[i].Index = idx
-		if len(s.res.Violations) < 200 {
+		// a bound per (property, signature) so that many hits of one known finding never crowd out anything else
+		k := c.Viol[i].Property + "|" + strings.Join(c.Viol[i].Signatures, ",")
+		if s.kept == nil {
+			s.kept = map[string]int{}
+		}
+		if s.kept[k] < 60 {
+			s.kept[k]++
 			s.res.Violations = append(s.res.Violations, c.Viol[i])
 		}
 	}
